@@ -41,6 +41,8 @@ SendStep(e, a, o) ==
   LET f1 == (IF "iplen" \in DOMAIN o /\ (o.iplen > cfg.mtu \/ (o.frag /\ o.mf /\ o.plen % 8 # 0)) THEN << <<l, "F1", e, o.iplen, o.plen>> >> ELSE <<>>)
             \* K2 (C08 / C10): every emitted packet, fragments included, has a valid header checksum and consistent lengths
             \o (IF "hcs" \in DOMAIN o /\ ~(o.hcs /\ o.wf) THEN << <<l, "K2", e, o.foff, o.mf>> >> ELSE <<>>)
+            \* ... and the ICMP checksum in the first fragment of an echo message is the checksum of the whole message
+            \o (IF "l4cs" \in DOMAIN o /\ ~o.l4cs THEN << <<l, "K2", e, "icmp-checksum", o.did>> >> ELSE <<>>)
   IN IF "unparsed" \in DOMAIN o THEN [a EXCEPT !.v = @ \o << <<l, "F2", e, "unparsed">> >>]
      ELSE IF o.did < 0 THEN [a EXCEPT !.v = @ \o f1]
      ELSE IF ~o.frag THEN
